@@ -19,7 +19,7 @@ ASSUMPTIONS = [
 BATCH = {"quick": 3, "thorough": 6}
 TIMEOUT = {"quick": 1500, "thorough": 7200}
 FLOORS = {
-    "quick": {"c02_rows_compared": 1500, "models_simulated": 40, "w4_argmax_concrete": 10, "w4_segargmax_concrete": 10},
+    "quick": {"c02_rows_compared": 1200, "models_simulated": 40, "w4_argmax_concrete": 10, "w4_segargmax_concrete": 10},
     "thorough": {"c02_rows_compared": 50000, "models_simulated": 500, "w4_argmax_concrete": 100, "w4_segargmax_concrete": 100},
 }
 NEEDED_FEATURES = ["mixed_discrete", "two_cont_choices", "filters", "vf_lcm", "vf_ref", "vf_random", "no_cont_choice", "three_cont_choices"]
@@ -40,7 +40,7 @@ def plan(tier, seed):
                       "cfg_over": {"max_T": 3 if tier == "quick" else 4,
                                    "n_cC": ([0, 3][(i // 5) % 2] if i % 5 == 4 else None)},
                       "force": force, "vf": ["lcm", "ref", "random"][i % 3],
-                      "agents": 16 if tier == "quick" else int([64, 128, 256][i % 3]),
+                      "agents": int([2, 3, 16, 4, 5, 16, 7, 16][i % 8]) if tier == "quick" else int([2, 3, 64, 5, 128, 7, 256, 11][i % 8]),
                       "env": {"VERIF_X64": "1"}})
     return cases
 
